@@ -28,17 +28,38 @@ def scan (num : Nat) : Nat → Nat → Nat → Nat
   | 0, count, _ => count
   | fuel+1, count, mask => if num / mask % 2 = 1 then count else scan num fuel (count + 1) (mask / 2)
 
-/-- `uint2tenbytefloat (num, bytes)` on a zeroed 10-byte array -/
+/-- `uint2tenbytefloat (num, bytes)` on a zeroed 10-byte array (num is a uint32_t): the most significant bit is
+    shifted up to bit 31 and the exponent byte is 30 - count -/
 def int2ten (num : Nat) : List Byte :=
+  if num ≤ 1 then [0x3F, 0xFF, 0x80, 0, 0, 0, 0, 0, 0, 0] else
+  let count := scan num 32 0 0x80000000
+  let sh := (num * 2 ^ count) % 2 ^ 32
+  [0x40, wrapU 8 (30 - (count : Int)), sh / 2 ^ 24 % 256, sh / 2 ^ 16 % 256, sh / 2 ^ 8 % 256, sh % 256, 0, 0, 0, 0]
+
+/-- `tenbytefloat2int (bytes)`; the four or-ed fields `b2<<23 | b3<<15 | b4<<7 | b5>>1` occupy disjoint bit
+    ranges for byte values, so the or is a sum.  Exponents up to 0x401D (values below 2^31) are converted. -/
+def ten2int (b : List Byte) : Int :=
+  let b0 := b.getD 0 0
+  let b1 := b.getD 1 0
+  if b0 ≥ 0x80 then 0 else
+  if b0 ≤ 0x3F then 1 else
+  if b0 > 0x40 then 0x4000000 else
+  if b1 > 0x1D then 800000000 else
+  let val := b.getD 2 0 * 2 ^ 23 + b.getD 3 0 * 2 ^ 15 + b.getD 4 0 * 2 ^ 7 + b.getD 5 0 / 2
+  ((val / 2 ^ (29 - b1) : Nat) : Int)
+
+/-! ### the rule before the repair of KF-AIFF-RATE-2P30 (kept for the `_old_rule` theorems) -/
+
+/-- the writer gave up at 0x40000000 and stored only the exponent bytes 40 1D -/
+def int2tenOld (num : Nat) : List Byte :=
   if num ≤ 1 then [0x3F, 0xFF, 0x80, 0, 0, 0, 0, 0, 0, 0] else
   if num ≥ 0x40000000 then [0x40, 0x1D, 0, 0, 0, 0, 0, 0, 0, 0] else
   let count := scan num 32 0 0x40000000
   let sh := if count < 31 then (num * 2 ^ (count + 1)) % 2 ^ 32 else 0
   [0x40, wrapU 8 (29 - (count : Int)), sh / 2 ^ 24 % 256, sh / 2 ^ 16 % 256, sh / 2 ^ 8 % 256, sh % 256, 0, 0, 0, 0]
 
-/-- `tenbytefloat2int (bytes)`; the four or-ed fields `b2<<23 | b3<<15 | b4<<7 | b5>>1` occupy disjoint bit
-    ranges for byte values, so the or is a sum -/
-def ten2int (b : List Byte) : Int :=
+/-- the reader answered 800000000 for every exponent above 0x401C -/
+def ten2intOld (b : List Byte) : Int :=
   let b0 := b.getD 0 0
   let b1 := b.getD 1 0
   if b0 ≥ 0x80 then 0 else
@@ -189,20 +210,34 @@ def write (c : Cfg) (k : Kind) (s : St) (enc : List Byte) (peaks : Option (List 
 /-- SFC_UPDATE_HEADER_NOW -/
 def update (c : Cfg) (k : Kind) (s : St) : St := writeHeader c k s true
 
-/-- `aiff_write_tailer`: pad byte when the data ends at an odd offset (PEAK is at the start, no strings) -/
+/-- `aiff_write_tailer` for a handle opened with SFM_WRITE (dataend is 0 until here): dataend becomes the end of
+    the audio; a pad byte follows when that offset is odd and is NOT part of the SSND chunk
+    (PEAK is at the start, no strings) -/
 def writeTailer (s : St) : St :=
   let e : Int := (s.hdr ++ s.data).length
-  if e % 2 = 1 then { s with tail := [0], dataend := e + 1 } else { s with tail := [], dataend := e }
+  if e % 2 = 1 then { s with tail := [0], dataend := e } else { s with tail := [], dataend := e }
 
 /-- `aiff_close` -/
 def close (c : Cfg) (k : Kind) (s : St) : St := writeHeader c k (writeTailer s) true
+
+/-- the tailer before the repair of KF-AIFF-ODD-PAD: dataend was advanced past the pad byte, so the SSND size and
+    the COMM frame count written at close included it -/
+def writeTailerOld (s : St) : St :=
+  let e : Int := (s.hdr ++ s.data).length
+  if e % 2 = 1 then { s with tail := [0], dataend := e + 1 } else { s with tail := [], dataend := e }
+
+def closeOld (c : Cfg) (k : Kind) (s : St) : St := writeHeader c k (writeTailerOld s) true
 
 /-! ### closed forms used by the theorems and the driver -/
 
 def padLen (dataLen : Nat) : Nat := dataLen % 2
 
-/-- header of a closed file holding `dataLen` audio bytes -/
+/-- header of a closed file holding `dataLen` audio bytes: exact frame count and SSND size, FORM counts the pad -/
 def closedHdr (c : Cfg) (k : Kind) (dataLen : Nat) (peaks : Option (List Peak)) : List Byte :=
+  hdrRaw c k (dataLen / c.bw) (hdrLen c k + dataLen + padLen dataLen : Nat) (dataLen : Nat) peaks
+
+/-- the same under the old tailer rule (pad byte counted as audio) -/
+def closedHdrOld (c : Cfg) (k : Kind) (dataLen : Nat) (peaks : Option (List Peak)) : List Byte :=
   hdrRaw c k ((dataLen + padLen dataLen) / c.bw) (hdrLen c k + dataLen + padLen dataLen : Nat) (dataLen + padLen dataLen : Nat) peaks
 
 /-- header after SFC_UPDATE_HEADER_NOW with `dataLen` audio bytes in the store -/
@@ -259,9 +294,31 @@ def cacheLimit : Nat := 30000
 def isPrint (b : Nat) : Bool := 0x20 ≤ b ∧ b ≤ 0x7E
 
 /-- chunk kinds `aiff_read_header` interprets that this model does not -/
-def unmodelledMarkers : List (List Byte) :=
-  [mk4 "MARK", mk4 "INST", mk4 "APPL", mk4 "NAME", mk4 "AUTH", mk4 "ANNO", mk4 "COMT", mk4 "(c) ", mk4 "basc",
-   mk4 "CHAN", mk4 "NONE"]
+def unmodelledMarkers : List (List Byte) := [mk4 "basc", mk4 "CHAN", mk4 "NONE"]
+
+/-- the comment records of a COMT chunk: `count` times (time stamp 4, marker id 2, length 2, text).  Result: the
+    position after them; `none none` = a text longer than the scratch buffer (SFE_INTERNAL), `none` = a read fell
+    short (the byte accounting of the C code then depends on partial counts: not modelled) -/
+def comtLoop (bs : List Byte) : Nat → Nat → Option (Option Nat)
+  | 0, pos => some (some pos)
+  | n+1, pos =>
+    if pos + 8 > bs.length then none else
+    let len := ofBE ((bs.drop (pos + 6)).take 2)
+    if len + 1 > 8192 then some none else
+    if pos + 8 + len > bs.length then none else
+    comtLoop bs n (pos + 8 + len)
+
+/-- the marker records of a MARK chunk: up to `n` times while fewer than `size` bytes of the chunk were read
+    (id 2, position 4, Pascal string: count byte then an odd number of bytes).  none = a read fell short. -/
+def markLoop (bs : List Byte) (start size : Nat) : Nat → Nat → Option Nat
+  | 0, pos => some pos
+  | n+1, pos =>
+    if pos - start ≥ size then some pos else
+    if pos + 7 > bs.length then none else
+    let c := bs.getD (pos + 6) 0
+    let plen := if c % 2 = 1 then c else c + 1
+    if pos + 7 + plen > bs.length then none else
+    markLoop bs start size n (pos + 7 + plen)
 
 def endswap32 (v : Nat) : Nat := ofLE (beBytes 4 v)
 
@@ -351,6 +408,54 @@ def step (bs : List Byte) (s : Sc) : Step :=
   else if m = mk4 "SSND" then fin (readSsnd bs s pos size)
   else if m = mk4 "FVER" ∨ m = mk4 "SFX!" then
     if size ≥ 2 ^ 31 then .unm else fin (.cont { s with pos := pos + size, used := s.used + size, csize := size })
+  else if m = mk4 "(c) " ∨ m = mk4 "AUTH" ∨ m = mk4 "NAME" ∨ m = mk4 "ANNO" then
+    -- text chunks: the size limits differ by one or two (sizeof (scbuf), - 1, - 2)
+    let limit := if m = mk4 "(c) " then 8192 else if m = mk4 "AUTH" then 8191 else 8190
+    if size = 0 then fin (.cont { s with pos := pos, csize := 0 })
+    else if size ≥ limit then .fail
+    else
+      let (_, p) := rdN bs pos (size + size % 2)
+      fin (.cont { s with pos := p, used := s.used + size + size % 2, csize := size + size % 2 })
+  else if m = mk4 "APPL" then
+    if size = 0 then fin (.cont { s with pos := pos, csize := 0 })
+    else if size ≥ 8191 ∨ size < 4 then
+      -- skipped with chunk_size left odd: the next iteration jumps one more byte
+      if size + size % 2 ≥ 2 ^ 31 then .unm else
+      fin (.cont { s with pos := pos + size + size % 2, used := s.used + size + size % 2, csize := size })
+    else
+      let (_, p) := rdN bs pos 4
+      let (_, p) := rdN bs p (size + size % 2 - 4)
+      fin (.cont { s with pos := p, used := s.used + size + size % 2, csize := size + size % 2 })
+  else if m = mk4 "INST" then
+    if size ≠ 20 then
+      if size ≥ 2 ^ 31 then .unm else fin (.cont { s with pos := pos + size, used := s.used + size, csize := size })
+    else
+      let (_, p) := rdN bs pos 20          -- 6 + 2 + 6 + 6 bytes in eight reads
+      fin (.cont { s with pos := p, used := s.used + 20, csize := size })
+  else if m = mk4 "COMT" then
+    if size = 0 then fin (.cont { s with pos := pos, csize := 0 })
+    else if size ≥ 2 ^ 31 then .unm
+    else if pos + 2 > flen then .unm
+    else
+      let count := ofBE ((bs.drop pos).take 2)
+      match comtLoop bs count (pos + 2) with
+      | none => .unm
+      | some none => .fail
+      | some (some p) =>
+        if p - pos > size then .unm           -- `bytes` (unsigned) would wrap
+        else fin (.cont { s with pos := pos + size, used := s.used + size, csize := size })
+  else if m = mk4 "MARK" then
+    if size ≥ 2 ^ 31 ∨ size < 2 then .unm
+    else if pos + 2 > flen then .unm
+    else
+      let n := ofBE ((bs.drop pos).take 2)
+      if n > 2500 then fin (.cont { s with pos := pos + size, used := s.used + size, csize := size })
+      else
+        match markLoop bs pos size n (pos + 2) with
+        | none => .unm
+        | some p =>
+          if p - pos > size then .unm         -- chunk_size - bytesread (unsigned) would wrap
+          else fin (.cont { s with pos := pos + size, used := s.used + size, csize := size })
   else if unmodelledMarkers.contains m then .unm
   else if size ≥ 0xFFFF0000 then .stop s
   else if m.all isPrint then
